@@ -62,7 +62,27 @@ fn mutate_meta(rng: &mut Rng, v: &mut Voice) -> &'static str {
 }
 
 fn random_weights(rng: &mut Rng, n: usize) -> (Vec<f64>, &'static str) {
-    match rng.below(10) {
+    match rng.below(12) {
+        10 => {
+            // a valid vector followed by a zero: the sum is still 1, only the count is wrong
+            let mut w = vec![1.0 / n as f64; n];
+            let s: f64 = w.iter().sum();
+            w[0] += 1.0 - s;
+            w.push(0.0);
+            if rng.chance(0.3) { w.push(0.0); }
+            (w, "valid-prefix-too-long")
+        }
+        11 if n >= 3 => {
+            // one component exactly 1, two others cancelling: sums to 1 but is no vertex
+            let mut w = vec![0.0; n];
+            let mut idx: Vec<usize> = (0..n).collect();
+            for i in (1..n).rev() { let j = rng.below(i + 1); idx.swap(i, j); }
+            let a = *rng.pick(&[0.5, 0.25, 1.0, 0.125]);
+            w[idx[0]] = 1.0;
+            w[idx[1]] = a;
+            w[idx[2]] = -a;
+            (w, "unit-plus-cancel")
+        }
         0 => {
             // vertex
             let mut w = vec![0.0; n];
